@@ -20,6 +20,36 @@ sys.path.insert(0, os.path.dirname(os.path.abspath(__file__)))
 from kfv import core  # noqa: E402
 
 
+def thorough_extras(ctx: 'core.Ctx', a: argparse.Namespace) -> None:
+    """Thorough tier: (1) two-way self-test of this property's rules on scratch copies of the analysed tree (must-fire mutants,
+    silent twins), (2) for the SPMD properties the exhaustive enumeration of call chains entry point -> collective."""
+    import time
+    sys.path.insert(0, os.path.join(os.path.dirname(os.path.abspath(__file__)), 'tools'))
+    import run_selftest as selftest
+    t0 = time.time()
+    cases = [c for c in selftest.load_corpus() if c['prop'] == a.prop]
+    os.environ['KFV_NO_SELFTEST'] = '1'
+    import concurrent.futures as cf
+    with cf.ThreadPoolExecutor(max_workers=16) as ex:
+        res = list(ex.map(lambda c: selftest.run_case(c, a.repo), cases))
+    killed = [r for r in res if r['expect'] == 'fire' and r['outcome'] == 'PASS']
+    missed = [r for r in res if r['expect'] == 'fire' and r['outcome'] == 'FAIL']
+    silent = [r for r in res if r['expect'] == 'silent' and r['outcome'] == 'PASS']
+    noisy = [r for r in res if r['expect'] == 'silent' and r['outcome'] == 'FAIL']
+    skipped = [r for r in res if r['outcome'] in ('SKIPPED', 'BROKEN-CASE')]
+    ctx.extra['selftest'] = {
+        'mutants_total': len(killed) + len(missed), 'mutants_killed': len(killed), 'mutants_missed': [r['id'] for r in missed],
+        'twins_total': len(silent) + len(noisy), 'twins_silent': len(silent), 'twins_noisy': [r['id'] for r in noisy],
+        'skipped_anchor_gone': [r['id'] for r in skipped], 'wall_s': round(time.time() - t0, 1),
+        'killed': [{'id': r['id'], 'rules': r.get('rules'), 'what': r['what']} for r in killed],
+    }
+    for r in missed + noisy:
+        print(f'SELFTEST-WARNING {a.prop} {r["id"]}: expected {r["expect"]}, got rc={r.get("rc")} rules={r.get("rules")}')
+    if a.prop in ('C03', 'C12', 'C18', 'C06', 'C11'):
+        from kfv.rules import spmd_rules
+        ctx.extra['call_chains'] = spmd_rules.enumerate_chains(ctx)
+
+
 def main() -> int:
     ap = argparse.ArgumentParser()
     ap.add_argument('prop')
@@ -50,6 +80,8 @@ def main() -> int:
         if ctx.incomplete:
             raise core.AnalysisIncomplete('; '.join(ctx.incomplete))
         ctx.floors()
+    if a.tier == 'thorough' and not ctx.violations and os.environ.get('KFV_NO_SELFTEST') != '1':
+        thorough_extras(ctx, a)
     if a.replay:
         with open(a.replay) as fh:
             want = json.load(fh)
